@@ -9,6 +9,7 @@ import L4.Drv.Socks5
 import L4.Drv.Throttle
 import L4.Drv.Relay
 import L4.Drv.Health
+import L4.Drv.Config
 open L4 L4.Drv
 
 def dispatch (line : String) : String :=
@@ -24,6 +25,7 @@ def dispatch (line : String) : String :=
   | "throttle" :: rest => (doThrottle.run rest).1
   | "relay" :: rest => (doRelay.run rest).1
   | "health" :: rest => (doHealth.run rest).1
+  | "cfg" :: rest => (doCfg.run rest).1
   | _ => "bad-op"
 
 partial def loop (h : IO.FS.Stream) (out : IO.FS.Stream) : IO Unit := do
